@@ -167,7 +167,7 @@ def run(ctx):
     )
     ctx.require("roundtrips_ok", "frames_sync", "frames_send", "frames_auth", "frames_enc-api", "kind_group", "kind_broadcast",
                 "kind_tag", "delivered_via_queue", "delivered_via_management")
-    reps = ctx.scale(3, 400)
+    reps = ctx.scale(3, 300)
     loop = new_loop()
     idx = 0
     try:
